@@ -411,6 +411,9 @@ let parse_tcmd (t : string list) : cmd =
   | ["insert"; s] -> CInsert (nat_of_int 1, parse_str s)
   | ["hsb"] -> CHistorySearchBackward | ["hsf"] -> CHistorySearchForward
   | ["killwl"] -> CKill MWholeLine | ["noop"] -> CNoop
+  | ["replaceeol"; s] -> CReplace (MEndOfLine, Some (parse_str s))
+  | ["replacewl"; s] -> CReplace (MWholeLine, Some (parse_str s))
+  | ["yank"] -> CYank (nat_of_int 1, ABefore)
   | _ -> failwith ("cmd " ^ String.concat " " t)
 
 let fmt_outcome = function
